@@ -10,12 +10,13 @@
    statements squeezed into one empty statement as the formatter squeezes them (the stated
    normalisation; comments are outside the fragment because Parser.v's trees do not carry them).
    _partial — fragment: the statements of [sok] (declarations, assignment to a variable, calls,
-   while, for, if / else if / else, break / return inside them), no func, no on, no a[i] = v;
-   lexical hypothesis, decidable, not yet proved from the fragment: no formatted token is ILLEGAL
-   or the keyword func (the pre-pass scans the raw token list for `func`). *)
+   while, for, if / else if / else, break / return inside them), no func, no on, no a[i] = v.
+   No lexical hypothesis: that no formatted token is ILLEGAL or the keyword func (the pre-pass scans
+   the raw token list for `func`) is proved from the fragment (FormatParsePlainProofs.v; the fragment's
+   map keys exclude the text func, which parser.Parse cannot accept as a key for the same reason). *)
 From Coq Require Import List String NArith ZArith Bool Arith.
 From EvyV Require Import Base FmtAst Format Pratt Parser ParserRules ParserScope ParserCursor FormatParse FormatParseListProofs
-  FormatParseStmtProofs FormatParseBlockProofs FormatParseProgProofs FormatParseAcceptProofs.
+  FormatParseStmtProofs FormatParseBlockProofs FormatParseProgProofs FormatParseAcceptProofs FormatParseSqueezeProofs.
 From EvyV.Gen Require Import Prec.
 Import ListNotations.
 Local Open Scope nat_scope.
@@ -25,7 +26,6 @@ Theorem C06_roundtrip_program_partial :
   forall (fixed : fixes) (p : list fstmt) (Gout : ctx) (poss : list position) (eof : position),
   p <> [] ->
   poks B (builtin_table B) (G0 B) false p Gout -> frame_used Gout ->
-  Forall (fun t => ttype t <> T_ILLEGAL /\ ttype t <> T_FUNC) (toks_of_pieces (fmt_prog fixed p)) ->
   List.length poss = List.length (toks_of_pieces (fmt_prog fixed p)) ->
   parse B (combine (toks_of_pieces (fmt_prog fixed p)) poss) eof = Accept (body_trees false p).
 Proof. exact program_roundtrip. Qed.
@@ -34,34 +34,65 @@ Print Assumptions C06_roundtrip_program_partial.
 (* The same with the scoping and control side conditions DERIVED from the judgements b-pratt proves
    for every accepted program (FormatParseAcceptProofs.v): if some token list raw - the source, say -
    is accepted by the parser model with p's tree and defines no function, then the formatter's
-   tokens for p are accepted with the same tree.  Used: C05_scope_accept_scoped (the declarative scope
+   tokens for p are accepted with the same tree.  Used: C05_scope_accept_static (call rules), C05_scope_accept_scoped (the declarative scope
    checker passes: every declare / visibility / every-variable-used condition of [sok] and [poks],
    the contexts threaded through blocks and else-if chains) and accept_structure (break / return
    placement, no dead code; no top-level statement always terminates).
-   What remains a hypothesis besides the lexical one is per expression, [eokb]: names are identifiers,
+   What remains a hypothesis is per expression, [eokb]: names are identifiers,
    the statement forms are those of the fragment (no comments, no func / on, targets are
-   variables), blocks are not empty, a called name is in the function table with a matching argument
-   count, and every expression is in the round-trip fragment of C06_roundtrip.v ([top_ok] /
-   [item_ok]) in the context the scope checker computes for its position.
+   variables), blocks are not empty, and every expression is in the round-trip fragment of
+   C06_roundtrip.v ([top_ok] / [item_ok]) in the context the scope checker computes for its position.
+   That the callee of a call statement is in the function table with a matching argument count is
+   derived from C05_scope_accept_static, given that the builtin table is consistent ([tbl_ok]: a
+   builtin without parameters has arity 0).
    The tree is the squeezed one (body_trees): the hypothesis fits sources without runs of blank
    lines, e.g. already formatted sources - for those this is idempotence of format at the level of
    the parser model's trees. *)
 Theorem C06_roundtrip_accepted_program_partial :
   forall (B : benv), (forall s t n, b_tyerr B s t n = false) ->
-  forall (fixed : fixes) (p : list fstmt) (raw : list (token * position)) (eof0 : position) (poss : list position) (eof : position),
+  forall (fixed : fixes), tbl_ok (builtin_table B) ->
+  forall (p : list fstmt) (raw : list (token * position)) (eof0 : position) (poss : list position) (eof : position),
   parse B raw eof0 = Accept (body_trees false p) -> fn_table B raw = builtin_table B ->
   p <> [] -> eokb B (builtin_table B) (G0 B) p ->
-  Forall (fun t => ttype t <> T_ILLEGAL /\ ttype t <> T_FUNC) (toks_of_pieces (fmt_prog fixed p)) ->
   List.length poss = List.length (toks_of_pieces (fmt_prog fixed p)) ->
   parse B (combine (toks_of_pieces (fmt_prog fixed p)) poss) eof = Accept (body_trees false p).
 Proof. exact program_roundtrip_accepted. Qed.
 Print Assumptions C06_roundtrip_accepted_program_partial.
 
+(* ... and for ARBITRARY comment-free sources: [raw_trees p] is the tree parser.Parse builds for the
+   source the formatter tree p was exported from - one empty statement per blank line, anywhere, in any
+   number.  The judgements of the accepted parse do not look at empty statements
+   (FormatParseSqueezeProofs.raw_same: scope checker, structure rules, termination and return flags
+   agree on the raw and on the squeezed tree, for every statement form including func / on), so
+       the source is accepted with tree [raw_trees p]   ==>
+       the formatted text is accepted with tree [body_trees false p] = the raw tree with every run of
+       empty statements squeezed into one. *)
+Theorem C06_roundtrip_source_program_partial :
+  forall (B : benv), (forall s t n, b_tyerr B s t n = false) ->
+  forall (fixed : fixes), tbl_ok (builtin_table B) ->
+  forall (p : list fstmt) (raw : list (token * position)) (eof0 : position) (poss : list position) (eof : position),
+  parse B raw eof0 = Accept (raw_trees p) -> fn_table B raw = builtin_table B ->
+  p <> [] -> eokb B (builtin_table B) (G0 B) p ->
+  List.length poss = List.length (toks_of_pieces (fmt_prog fixed p)) ->
+  parse B (combine (toks_of_pieces (fmt_prog fixed p)) poss) eof = Accept (body_trees false p).
+Proof. exact program_roundtrip_source. Qed.
+Print Assumptions C06_roundtrip_source_program_partial.
+
+Theorem C06_judgements_ignore_empty_statements :
+  forall p : list fstmt,
+  structure_ok (raw_trees p) = structure_ok (body_trees false p) /\
+  (forall T, scope_prog T (raw_trees p) = scope_prog T (body_trees false p)) /\
+  (forall B F, stmts_sok B F (raw_trees p) <-> stmts_sok B F (body_trees false p)).
+Proof. exact prog_same. Qed.
+Print Assumptions C06_judgements_ignore_empty_statements.
+
 (* the derivation on its own: per-expression conditions + the two judgements give [poks] *)
 Theorem C06_side_conditions_from_judgements :
-  forall (B : benv) (F : list (str * finfo)) (body : list fstmt) (G : ctx) (blank : bool) (Gout : ctx),
+  forall (B : benv) (F : list (str * finfo)), tbl_ok F ->
+  forall (body : list fstmt) (G : ctx) (blank : bool) (Gout : ctx),
   eokb B F G body ->
   forallb (stmt_ok KTop false) (body_trees blank body) = true ->
+  Forall (stmt_sok B F) (body_trees blank body) ->
   scope_stmts (tabs_of B F) (body_trees blank body) G = Some Gout ->
   poks B F G blank body Gout.
 Proof. exact poks_derive. Qed.
